@@ -306,7 +306,34 @@ class Run:
             self.broken.append({"kind": "audit", "what": "forbidden declarations", "lines": bad[:20]})
         self.model_ok = True
         self.notes.append("coq obligations checked in %.1fs" % (time.time() - t))
-        return not missing and not bad
+        chk_ok = True
+        if self.tier == "thorough" or os.environ.get("VERIF_COQCHK") == "1":
+            chk_ok = self.coqchk()
+        return not missing and not bad and chk_ok
+
+    def coqchk(self):
+        """Independent re-check of the compiled theorems of this property and of everything they depend on (coqchk), with the
+        list of axioms, type-in-type / unsafe fixpoint / assumed-positivity uses it reports (-o).  Thorough tier only."""
+        t = time.time()
+        rc, out = sh("ulimit -s unlimited 2>/dev/null; exec coqchk -silent -o -Q theories LCC LCC.Props.%s" % self.prop,
+                     cwd=COQ, timeout=3000)
+        summary = {}
+        cur = None
+        for line in out.splitlines():
+            m = re.match(r"^\* ([^:]+):\s*(.*)$", line.strip())
+            if m:
+                cur = m.group(1).strip()
+                summary[cur] = m.group(2).strip()
+            elif cur and line.strip() and not line.startswith("CONTEXT") and not line.startswith("="):
+                summary[cur] = (summary[cur] + " " + line.strip()).strip()
+        self.coqchk_summary = summary
+        self.trusted.append("coqchk -o LCC.Props.%s (rc=%d, %.0fs): %s" % (self.prop, rc, time.time() - t, json.dumps(summary, sort_keys=True)))
+        bad = [k for k, v in summary.items() if k != "Theory" and v and v != "<none>"]
+        if rc != 0 or not summary or bad:
+            self.broken.append({"kind": "proof", "what": "coqchk does not accept Props/%s.vo or reports assumptions: %s" % (self.prop, bad or "no summary"),
+                                "log_tail": out[-2000:]})
+            return False
+        return True
 
     def _model_built(self):
         return True
